@@ -1226,7 +1226,8 @@ class State:
                 if role is not None and role.k == "toks" and role.frame.base == "abs":
                     continue  # the callee treats this slice as the absolute token vector (it indexes it with an origin)
             if av.k == "ref":
-                if dcl == "ref":
+                # (a parameter of generic type - `impl IntoIterator<Item = &Reference<T>>` - takes the Reference(s) as they are)
+                if dcl == "ref" or (dcl == "generic" and "Reference<" in bc.tstr(body["params"][i]["bt"])):
                     frames.append(("ref", av.frame, i))
                     if summ is not None and summ.convention.get(i) == "rebased":
                         rebase_for = av
